@@ -47,7 +47,7 @@ def _witnesses(d: Path) -> dict:
 def model_stage(tier: str) -> dict:
     def build(d: Path) -> dict:
         cfg = "HMS_quick.cfg" if tier == "quick" else "HMS_thorough.cfg"
-        r = run_tlc("MC_HMS", cfg, d, coverage=True, timeout=3000)
+        r = run_tlc("MC_HMS", cfg, d, coverage=True, timeout=5400)
         if not r.ok and not r.violated:
             raise MachineryError("design model failed:\n" + "\n".join(r.out.splitlines()[-30:]))
         cov = {a: list(r.coverage.get(a, (0, 0))) for a in ACTIONS}
@@ -60,6 +60,17 @@ def model_stage(tier: str) -> dict:
             m = re.search(r"Error: The behavior up to this point is:(.*)", w.out, re.S)
             steps = len(re.findall(r"^State \d+:", w.out, re.M))
             trace = f"{steps} states to the idle metaepoch"
+        sim = None
+        if tier != "quick":
+            # random deep behaviours under larger constants (8 metaepochs, 9 demes, 3 candidates per parent): invariants only
+            sr = run_tlc("MC_HMS", "HMS_thorough_sim.cfg", d / "sim", workers=8, timeout=1500, heap="4g",
+                         simulate="num=6000", depth=400, tlc_seed=7)
+            if not sr.ok and not sr.violated:
+                raise MachineryError("simulation run of the design model failed:\n" + "\n".join(sr.out.splitlines()[-20:]))
+            m = re.search(r"(\d+) states checked, (\d+) traces generated", sr.out)
+            sim = {"cfg": "HMS_thorough_sim.cfg", "states_checked": int(m.group(1)) if m else 0, "traces": int(m.group(2)) if m else 0,
+                   "violated": sr.violated, "wall_s": round(sr.wall_s, 1)}
+            r.violated.extend(sr.violated)
         # liveness: with a global condition that must hold eventually every fair behaviour ends (no state constraint)
         lv = run_tlc("MC_HMS", "HMS_live.cfg", d / "live", workers=4, timeout=1800, heap="4g")
         if not lv.ok and not lv.violated:
@@ -69,7 +80,7 @@ def model_stage(tier: str) -> dict:
             r.violated.append("Termination")
         wit = _witnesses(d)
         unreachable = [f"model witness not reachable: {n} ({WITNESSES[n]})" for n, v in wit.items() if not v["reachable"]]
-        return {"liveness": live, "witnesses": wit, "unreachable_witnesses": unreachable,
+        return {"simulation": sim, "liveness": live, "witnesses": wit, "unreachable_witnesses": unreachable,
                 "cfg": cfg, "generated": r.generated, "distinct": r.distinct, "depth": r.depth,
                 "violated": r.violated, "tail": r.out[-2500:] if r.violated else "",
                 "action_coverage": cov, "untaken_actions": untaken, "wall_s": round(r.wall_s, 1),
